@@ -217,3 +217,105 @@ func VerifH_C02_api_dense_singleton() {
 	vrt.Covered("attrs-compared")
 	_ = f.Close()
 }
+
+func verifLongString(n int, c0 byte) string {
+	b := make([]byte, n)
+	for i := range b {
+		b[i] = 'a' + byte(i%26)
+	}
+	b[0] = c0
+	b[n-1] = c0
+	return string(b)
+}
+
+// the first attribute is too large for the object header and goes straight to dense storage (a heap holding a single
+// object); it is overwritten with another size (smaller / larger, forked), then more attributes are added
+func VerifH_C02_api_dense_first_big() {
+	vrt.LoopBound(3000)
+	fw, err := CreateForWrite("c02b.h5", CreateTruncate)
+	vrt.AssertNoErr(err, "create-ok")
+	ds, err := fw.CreateDataset("/d", Int32, []uint64{1})
+	vrt.AssertNoErr(err, "create-dataset-ok")
+	vrt.AssertNoErr(ds.Write([]int32{7}), "write-ok")
+	c := 'A' + vrt.U8()%26
+	vrt.AssertNoErr(ds.WriteAttribute("desc", verifLongString(300, c)), "big-first-attr-ok")
+	n2 := []int{200, 300, 340, 400}[vrt.Choice(4)]
+	second := verifLongString(n2, 'A'+vrt.U8()%26)
+	vrt.AssertNoErr(ds.WriteAttribute("desc", second), "overwrite-singleton-ok")
+	model := map[string]string{"desc": second}
+	nadd := 1 + vrt.Choice(2)
+	names := []string{"units", "note"}
+	for i := 0; i < nadd; i++ {
+		v := verifLongString(6+60*vrt.Choice(2), 'A'+vrt.U8()%26)
+		vrt.AssertNoErr(ds.WriteAttribute(names[i], v), "add-after-overwrite-ok")
+		model[names[i]] = v
+	}
+	vrt.AssertNoErr(fw.Close(), "close-ok")
+	f, err := Open("c02b.h5")
+	vrt.AssertNoErr(err, "reopen-ok")
+	d := verifFindDataset(f, "/d")
+	vrt.Assert(d != nil, "dataset-found-at-path")
+	list, err := d.ListAttributes()
+	vrt.AssertNoErr(err, "list-attributes-ok")
+	vrt.Assert(len(list) == len(model), "attr-count-as-model")
+	for _, n := range []string{"desc", "units", "note"} {
+		if want, ok := model[n]; ok {
+			got, err := d.ReadAttribute(n)
+			vrt.AssertNoErr(err, "attr-read-ok")
+			gs, isS := got.(string)
+			vrt.Assert(isS, "attr-type-string")
+			vrt.Assert(gs == want, "attr-value-string")
+		}
+	}
+	vrt.Covered("attrs-compared")
+	_ = f.Close()
+}
+
+// dense storage with names that differ only in their last byte (lengths 11, 12 and 24: block boundaries of the
+// name hash): operations on one name never affect its sibling
+func VerifH_C02_api_dense_similar_names() {
+	vrt.LoopBound(3000)
+	fw, err := CreateForWrite("c02n.h5", CreateTruncate)
+	vrt.AssertNoErr(err, "create-ok")
+	ds, err := fw.CreateDataset("/d", Int32, []uint64{1})
+	vrt.AssertNoErr(err, "create-dataset-ok")
+	vrt.AssertNoErr(ds.Write([]int32{7}), "write-ok")
+	pairs := [][2]string{{"temperatur1", "temperatur2"}, {"temperature1", "temperature2"}, {"temperature_sensor_no_01", "temperature_sensor_no_02"}}
+	pr := pairs[vrt.Choice(3)]
+	names := []string{"f0", "f1", "f2", "f3", "f4", "f5", "f6", pr[0], pr[1]}
+	model := map[string]int32{}
+	for i, n := range names {
+		v := int32(10 + i)
+		vrt.AssertNoErr(ds.WriteAttribute(n, v), "prefix-attr-write-ok")
+		model[n] = v
+	}
+	// one symbolic operation on the first name of the pair
+	switch vrt.Choice(3) {
+	case 0:
+		v := vrt.I32()
+		vrt.AssertNoErr(ds.WriteAttribute(pr[0], v), "overwrite-ok")
+		model[pr[0]] = v
+	case 1:
+		vrt.AssertNoErr(ds.DeleteAttribute(pr[0]), "delete-present-ok")
+		delete(model, pr[0])
+	case 2:
+	}
+	vrt.AssertNoErr(fw.Close(), "close-ok")
+	f, err := Open("c02n.h5")
+	vrt.AssertNoErr(err, "reopen-ok")
+	d := verifFindDataset(f, "/d")
+	vrt.Assert(d != nil, "dataset-found-at-path")
+	list, err := d.ListAttributes()
+	vrt.AssertNoErr(err, "list-attributes-ok")
+	vrt.Assert(len(list) == len(model), "attr-count-as-model")
+	for _, n := range names {
+		if want, ok := model[n]; ok {
+			got, err := d.ReadAttribute(n)
+			vrt.AssertNoErr(err, "attr-read-ok")
+			gi, isI := got.(int32)
+			vrt.Assert(isI && gi == want, "attr-value-int32")
+		}
+	}
+	vrt.Covered("attrs-compared")
+	_ = f.Close()
+}
